@@ -51,7 +51,7 @@ def unpack_circuit_spec(circuit_spec: list) -> list:
     new_spec = list(circuit_spec)
     while any(isinstance(s, Group) for s in new_spec):
         temp_spec = []
-        for spec in circuit_spec:
+        for spec in new_spec:
             if not isinstance(spec, Group):
                 temp_spec += [spec]
             else:
